@@ -112,7 +112,10 @@ class RustMagicNumberAnalyzer(RustBaseAnalyzer):
             "f32",
             "f64",
         )
+        prefixed = text[:2].lower() in ("0x", "0o", "0b")
         for suffix in suffixes:
+            if prefixed and suffix.startswith("f"):
+                continue  # 0x1f32 is a hexadecimal literal, not 0x1 with an f32 suffix
             if text.endswith(suffix):
                 return text[: -len(suffix)]
         return text
